@@ -99,11 +99,15 @@ pub fn main(args: &[String]) -> i32 {
         if samples.len() < 5 {
             samples.push(json!({"pattern": pat, "flags": flags, "xsd": xsd, "inputs": inputs, "repls": repls}));
         }
-        jobs.push(job(id, &pat, &flags, !xsd, &inputs, &repls, false));
+        let mut j = job(id, &pat, &flags, !xsd, &inputs, &repls, false);
         if with_unopt {
-            id += 1;
-            jobs.push(job(id, &pat, &flags, !xsd, &inputs, &repls, true));
+            // the same source also compiled with every optimisation off, run through the same calls (C08)
+            j["pat2"] = j["pat"].clone();
+            j["flags2"] = j["flags"].clone();
+            j["x2"] = j["x"].clone();
+            j["unopt2"] = json!(true);
         }
+        jobs.push(j);
     }
     let njobs = jobs.len();
     let faults = Mutex::new(std::fs::File::create(format!("{}/faults.ndjson", out)).expect("faults file"));
@@ -124,6 +128,31 @@ pub fn main(args: &[String]) -> i32 {
                     recs.push(json!({"ev":"fault","kind":k,"call":call["op"],"pat_s":job["pat_s"],
                                      "flags":job["flags_s"],"x":job["x"],
                                      "s_s":crate::cps_to_string(&call["s"]).unwrap_or_default(),"unopt":job["unopt"]}));
+                }
+            }
+        }
+        if job.get("unopt2").is_some() {
+            // optimised vs unoptimised: every call must return exactly the same
+            let strip = |v: &Value| {
+                let mut v = v.clone();
+                if let Some(o) = v.as_object_mut() {
+                    o.remove("cut");
+                }
+                v
+            };
+            if strip(&reply["compile"]) != strip(&reply["compile2"]) {
+                recs.push(json!({"ev":"fault","kind":"optdiff","call":"compile","pat_s":job["pat_s"],"flags":job["flags_s"],
+                                 "x":job["x"],"s_s":"","expected":reply["compile"],"observed":reply["compile2"]}));
+            } else if let (Some(a), Some(b)) = (reply["res"].as_array(), reply["res2"].as_array()) {
+                for (i, (ra, rb)) in a.iter().zip(b.iter()).enumerate() {
+                    if strip(ra) != strip(rb) {
+                        let call = &job["calls"][i];
+                        let cut = ra["cut"].as_u64().unwrap_or(0) | rb["cut"].as_u64().unwrap_or(0);
+                        recs.push(json!({"ev":"fault","kind":"optdiff","call":call["op"],"pat_s":job["pat_s"],
+                                         "flags":job["flags_s"],"x":job["x"],"cut":cut,
+                                         "s_s":crate::cps_to_string(&call["s"]).unwrap_or_default(),
+                                         "expected":ra,"observed":rb}));
+                    }
                 }
             }
         }
